@@ -53,6 +53,10 @@ def factories():
     return {"raw": raw, "expr": expr}
 
 
+class _StopStr(str):
+    pass
+
+
 def nested_walks(rec, root, kindname, rng):
     """a visitor may itself walk the tree (numbering nodes with root.to_list().index(node), looking
     something up from the root, ...): a traversal started from inside a callback of another one
@@ -119,9 +123,14 @@ def drive_tree(rec, root, kindname, rng, full_stops=True):
             for j in stops:
                 c = [0]
 
-                def fn(node, depth, data, j=j, c=c):
+                # the stop signal is the VALUE "stop": every third visitor returns an equal string that
+                # is a different object (built at run time / a str subclass), as a visitor that gets
+                # its verdict from data would
+                stopv = STOP if j % 3 == 0 else ("".join(["st", "op"]) if j % 3 == 1 else _StopStr("stop"))
+
+                def fn(node, depth, data, j=j, c=c, stopv=stopv):
                     c[0] += 1
-                    return STOP if c[0] - 1 == j else None
+                    return stopv if c[0] - 1 == j else None
 
                 visit(fn, d0, "payload")
                 if sub >= 2:
@@ -172,7 +181,19 @@ def query_all(root, rng, expr):
     start = rng.choice(nodes)
     for order in ("preorder", "inorder", "postorder"):
         getattr(start, f"visit_{order}")(lambda n, d, data: None, rng.randrange(3), None)
+    # lists handed out belong to the caller: emptied / scribbled on, then the question is asked again
+    kids = start.get_children()
+    kids.clear()
+    kids.append(None)
+    start.get_children()
     if expr:
+        order = rng.choice(["preorder", "inorder", "postorder"])
+        lst = root.to_list(order)
+        lst.reverse()
+        del lst[: len(lst) // 2]
+        root.to_list(order)
+        found = root.find_type(E.MathExpression)
+        found.clear()
         root.to_list(rng.choice(["preorder", "inorder", "postorder"]))
         root.find_type(rng.choice([E.MathExpression, E.ConstantExpression, E.BinaryExpression]))
         root.find_id(rng.choice(["i0", "i1", "nope"]))
